@@ -123,3 +123,10 @@ pub fn jbytes(b: &[u8]) -> J {
 pub fn bytes_of(j: &J) -> Vec<u8> {
     j.as_array().map(|a| a.iter().map(|x| x.as_u64().unwrap() as u8).collect()).unwrap_or_default()
 }
+
+/// The running binary, for spawning children of itself: `/proc/self/exe` (the inode this process runs, whatever a
+/// concurrent rebuild has put at the path in the meantime), else the path of the executable.
+pub fn self_exe() -> std::path::PathBuf {
+    let p = std::path::Path::new("/proc/self/exe");
+    if p.exists() { p.to_path_buf() } else { std::env::current_exe().expect("current exe") }
+}
